@@ -107,6 +107,20 @@ type c20Deferred struct {
 	deferInstr *ssa.Defer
 	fn         *ssa.Function // closure body or static callee (nil for direct defer of non-repo function)
 	bindings   map[*ssa.FreeVar]ssa.Value
+	params     map[*ssa.Parameter]ssa.Value // deferred named function: parameter -> argument evaluated at the defer
+}
+
+// resolve maps a value used inside the deferred function to the variable cell / parameter of the runner it stands for.
+func (d *c20Deferred) resolve(v ssa.Value) ssa.Value {
+	if p, ok := v.(*ssa.Parameter); ok && d.params != nil {
+		if a, ok := d.params[p]; ok {
+			if cell := cellOf(a, nil); cell != nil {
+				return cell
+			}
+			return a
+		}
+	}
+	return cellOf(v, d.bindings)
 }
 
 // c20VMPool checks R20a for every function that runs a goja program; rule is the rule name to report under.
@@ -151,13 +165,26 @@ func c20VMPool(c *core.Ctx, rule string) {
 		}
 		sets := setSites[f]
 		usesPool := false
-		for _, g := range append([]*ssa.Function{f}, f.AnonFuncs...) {
+		var scan func(g *ssa.Function, d int)
+		scanned := map[*ssa.Function]bool{}
+		scan = func(g *ssa.Function, d int) {
+			if g == nil || scanned[g] || g.Blocks == nil || d > 2 {
+				return
+			}
+			scanned[g] = true
 			for _, ci := range core.Calls(g) {
 				if isPoolCall(ci, "Get") || isPoolCall(ci, "Put") {
 					usesPool = true
 				}
+				if cf := ci.Common().StaticCallee(); cf != nil && core.InRepo(core.FuncPkg(cf)) {
+					scan(cf, d+1)
+				}
+			}
+			for _, a := range g.AnonFuncs {
+				scan(a, d)
 			}
 		}
+		scan(f, 0)
 		if !usesPool {
 			c.OK(rule, key+" VM not pooled", f.Pos(), "this runner does not take VMs from a pool")
 			continue
@@ -223,6 +250,12 @@ func c20VMPool(c *core.Ctx, rule string) {
 					}
 				case *ssa.Function:
 					cd.fn = v
+					cd.params = map[*ssa.Parameter]ssa.Value{}
+					for i, p := range v.Params {
+						if i < len(d.Call.Args) {
+							cd.params[p] = d.Call.Args[i]
+						}
+					}
 				}
 				defers = append(defers, cd)
 			}
@@ -277,7 +310,7 @@ func c20VMPool(c *core.Ctx, rule string) {
 		var delCall ssa.CallInstruction
 		for _, d := range dels {
 			dm := rangedMap(d.call.Common().Args[1])
-			if dm != nil && cellOf(dm, d.in.bindings) == setCell {
+			if dm != nil && d.in.resolve(dm) == setCell {
 				delIn, delCall = d.in, d.call
 			}
 		}
@@ -337,26 +370,28 @@ func c20VMPool(c *core.Ctx, rule string) {
 		}
 		// Put receives the Get result
 		pv := core.Unwrap(putCall.Common().Args[1], true)
-		pcell := cellOf(pv, putIn.bindings)
 		putOK := false
-		if pcell != nil {
-			putOK = true
-			nStores := 0
-			for _, w := range core.Writes(f) {
-				st := w.Instr.(*ssa.Store)
-				if st.Addr == pcell {
+		if p, ok := pv.(*ssa.Parameter); ok && putIn.params != nil {
+			if a, ok := putIn.params[p]; ok {
+				putOK = c20IsGetResult(core.Unwrap(a, true), f, 0)
+			}
+		} else {
+			pcell := cellOf(pv, putIn.bindings)
+			if a, ok := pcell.(*ssa.Alloc); ok {
+				putOK = true
+				nStores := 0
+				for _, st := range storesToCell(a) {
 					nStores++
-					call, isCall := core.Unwrap(st.Val, true).(*ssa.Call)
-					if !(isCall && isPoolCall(call, "Get")) && !core.IsNilConst(st.Val) {
+					if !core.IsNilConst(st.Val) && !c20IsGetResult(core.Unwrap(st.Val, true), f, 0) {
 						putOK = false
 					}
 				}
+				if nStores == 0 {
+					putOK = false
+				}
+			} else {
+				putOK = c20IsGetResult(pv, f, 0)
 			}
-			if nStores == 0 {
-				putOK = false
-			}
-		} else if call, ok := pv.(*ssa.Call); ok && isPoolCall(call, "Get") {
-			putOK = true
 		}
 		c.Check(putOK, rule, key+" Put object", core.InstrPos(putCall), "Put receives exactly the object obtained from Get", "the object returned to the pool is not (only) the one obtained from Get")
 		// VM not used after Put
@@ -767,4 +802,61 @@ func returnsNonNilError(b *ssa.BasicBlock) bool {
 	}
 	last := rt.Results[len(rt.Results)-1]
 	return types.Identical(last.Type(), types.Universe.Lookup("error").Type()) && !core.IsNilConst(last)
+}
+
+// c20IsGetResult: v is the result of sync.Pool.Get (possibly nil on other paths), directly, through a local cell, or as
+// a result of a repository helper whose corresponding return values are Get results or nil.
+func c20IsGetResult(v ssa.Value, f *ssa.Function, d int) bool {
+	if d > 4 || v == nil {
+		return false
+	}
+	if core.IsNilConst(v) {
+		return true
+	}
+	switch x := v.(type) {
+	case *ssa.Call:
+		return isPoolCall(x, "Get")
+	case *ssa.Phi:
+		for _, e := range x.Edges {
+			if !c20IsGetResult(core.Unwrap(e, true), f, d+1) {
+				return false
+			}
+		}
+		return true
+	case *ssa.UnOp:
+		if x.Op == token.MUL {
+			if a, ok := x.X.(*ssa.Alloc); ok {
+				sts := storesToCell(a)
+				if len(sts) == 0 {
+					return false
+				}
+				for _, st := range sts {
+					if !c20IsGetResult(core.Unwrap(st.Val, true), f, d+1) {
+						return false
+					}
+				}
+				return true
+			}
+		}
+	case *ssa.Extract:
+		call, ok := x.Tuple.(*ssa.Call)
+		if !ok {
+			return false
+		}
+		cf := call.Call.StaticCallee()
+		if cf == nil || cf.Blocks == nil || !core.InRepo(core.FuncPkg(cf)) {
+			return false
+		}
+		for _, b := range cf.Blocks {
+			for _, in := range b.Instrs {
+				if rt, ok := in.(*ssa.Return); ok && x.Index < len(rt.Results) {
+					if !c20IsGetResult(core.Unwrap(rt.Results[x.Index], true), cf, d+1) {
+						return false
+					}
+				}
+			}
+		}
+		return true
+	}
+	return false
 }
